@@ -11,14 +11,15 @@ import (
 // directory format), the input root before CreateParentDirectories, and the
 // tree the "action" left behind, uploaded with or without injected faults.
 type tcase struct {
-	backend string // virtual | naive
-	upDirs  bool
-	wd      string
-	paths   []string
-	t0      *node
-	force   bool
-	faults  bool
-	t1      *node
+	backend     string // virtual | naive
+	upDirs      bool
+	wd          string
+	paths       []string
+	t0          *node
+	force       bool
+	faults      bool
+	enterFaults bool // with faults: unreadable directories fail on enter instead of on ReadDir where that is equivalent
+	t1          *node
 }
 
 func (c *tcase) lines() []string {
@@ -30,8 +31,18 @@ func (c *tcase) lines() []string {
 		"backend " + c.backend,
 		strings.Join(newLine, " "),
 		"mkparents " + c.t0.String(),
-		"upload " + b01(c.force) + " " + b01(c.faults) + " " + c.t1.String(),
+		"upload " + b01(c.force) + " " + c.faultMode() + " " + c.t1.String(),
 	}
+}
+
+func (c *tcase) faultMode() string {
+	switch {
+	case c.faults && c.enterFaults:
+		return "2"
+	case c.faults:
+		return "1"
+	}
+	return "0"
 }
 
 func parseCase(lines []string) (*tcase, error) {
@@ -75,7 +86,7 @@ func parseCase(lines []string) (*tcase, error) {
 			if len(ws) < 4 {
 				return nil, fmt.Errorf("bad upload line")
 			}
-			c.force, c.faults = ws[1] == "1", ws[2] == "1"
+			c.force, c.faults, c.enterFaults = ws[1] == "1", ws[2] == "1" || ws[2] == "2", ws[2] == "2"
 			t, rest, err := parseTree(ws[3:])
 			if err != nil || len(rest) != 0 || t.kind != 'd' {
 				return nil, fmt.Errorf("bad upload line")
@@ -120,6 +131,9 @@ func (g *generator) contentID(faults bool) int {
 }
 
 func (g *generator) leaf(faults bool) *node {
+	if faults && g.r.Chance(1, 12) {
+		return &node{kind: 'l', target: readlinkFailTarget}
+	}
 	switch g.r.Pick(60, 25, 15) {
 	case 0:
 		return &node{kind: 'f', exec: g.r.Chance(1, 3), content: g.contentID(faults)}
@@ -238,6 +252,11 @@ func (g *generator) gen(tier string) *tcase {
 	r := g.r
 	g.pool = nil
 	c := &tcase{backend: "virtual", upDirs: r.Chance(1, 2), force: r.Chance(1, 5), faults: r.Chance(1, 4)}
+	c.enterFaults = c.faults && r.Chance(1, 2)
+	// half of the fault-injection cases scatter faults all over the tree, the other
+	// half inject exactly one fault below (or at) a declared output, so that it is
+	// the only possible reason for an error
+	scatter := c.faults && r.Chance(1, 2)
 
 	// input root
 	budget := 6
@@ -361,10 +380,10 @@ func (g *generator) gen(tier string) *tcase {
 				delete(parent.entries, last)
 			}
 		case 1:
-			parent.entries[last] = &node{kind: 'f', exec: r.Chance(1, 2), content: g.contentID(c.faults)}
+			parent.entries[last] = &node{kind: 'f', exec: r.Chance(1, 2), content: g.contentID(scatter)}
 		case 2:
 			b := nodeBudget / 2
-			sub := g.subtree(1+r.Intn(5), &b, c.faults)
+			sub := g.subtree(1+r.Intn(5), &b, scatter)
 			if old := parent.entries[last]; old != nil && old.kind == 'd' {
 				for k, v := range old.entries { // keep what nested declarations put there
 					sub.entries[k] = v
@@ -373,6 +392,9 @@ func (g *generator) gen(tier string) *tcase {
 			parent.entries[last] = sub
 		case 3:
 			parent.entries[last] = &node{kind: 'l', target: symlinkTargets[r.Intn(len(symlinkTargets))]}
+			if scatter && r.Chance(1, 5) {
+				parent.entries[last].target = readlinkFailTarget
+			}
 		default:
 			parent.entries[last] = &node{kind: 's'}
 		}
@@ -396,6 +418,53 @@ func (g *generator) gen(tier string) *tcase {
 	}
 	if !c.faults {
 		clearFaults(c.t1)
+	}
+	if c.faults && !scatter {
+		// one fault: a file whose upload fails, a symlink whose Readlink fails or a
+		// directory that cannot be entered/listed, preferably nested inside an output directory
+		var nested, top []*node
+		var collect func(n *node, into *[]*node)
+		collect = func(n *node, into *[]*node) {
+			for _, k := range n.names() {
+				e := n.entries[k]
+				if e.kind != 's' {
+					*into = append(*into, e)
+				}
+				if e.kind == 'd' {
+					collect(e, into)
+				}
+			}
+		}
+		seen := map[string]bool{}
+		for _, d := range ds {
+			key := strings.Join(d.loc, "/")
+			if seen[key] {
+				continue
+			}
+			seen[key] = true
+			if n := c.t1.walk(d.loc); n != nil && n.kind != 's' {
+				if len(d.loc) > 0 {
+					top = append(top, n)
+				}
+				if n.kind == 'd' {
+					collect(n, &nested)
+				}
+			}
+		}
+		pool := nested
+		if len(pool) == 0 || r.Chance(1, 5) {
+			pool = append(pool, top...)
+		}
+		if len(pool) > 0 {
+			switch n := pool[r.Intn(len(pool))]; n.kind {
+			case 'f':
+				n.content = 9 + 10*r.Intn(5)
+			case 'l':
+				n.target = readlinkFailTarget
+			case 'd':
+				n.readable = false
+			}
+		}
 	}
 	return c
 }
